@@ -398,6 +398,66 @@ def time_items_round_trip(ctx, repo, rule):
     ctx.floor(rule, "Time texts written and read back", n, 100)
 
 
+def odd_labels_writable(ctx, repo, T, rule):
+    """every label of a writable Enum item is a value of its domain - also the ones a text clean-up would alter: labels
+    that are, begin or end with white space, or are empty (a quiet-pause demand labelled " " / "QUIET").  For every such
+    shipped item, built by its constructor on a model structure, writing each of its (unambiguous) labels through the
+    public setter (`item.value = label`, the blocking path) and through async_set_value hands the device the same single
+    write: the label's position in the list, in the item's field."""
+    from ..absint import ClassRef, Interp, Native, Obj, PyRaise, Undecided
+    shapes = {}
+    for stem, m in sorted(T.modules.items()):
+        for it_ in m.items:
+            try:
+                g = T.geometry(it_)
+            except Exception:  # noqa: BLE001 - malformed items are C18's findings
+                continue
+            labs = g.get("items")
+            if g.get("type") != "Enum" or g.get("read_write") is None or not isinstance(labs, list):
+                continue
+            odd = [l_ for l_ in labs if isinstance(l_, str) and (l_ != l_.strip() or l_ == "") and labs.count(l_) == 1]
+            if odd:
+                shapes.setdefault((it_.ctor, repr(it_.args[1:])), (it_, stem, g, odd))
+    n = 0
+    for (_c, _a), (item, stem, g, odd) in sorted(shapes.items()):
+        labs = g["items"]
+        for label in odd:
+            res = {}
+            for path in ("value =", "async_set_value"):
+                it = Interp(repo, max_depth=12)
+                writes = []
+                st = Obj(None, {"status_block": bytes(1024), "accessors": {}}, name="struct")
+                st.attrs["set_value"] = Native(lambda a, k, w=writes: w.append(tuple(a)), "set_value")
+                st.attrs["async_set_value"] = Native(lambda a, k, w=writes: w.append(tuple(a)), "async_set_value")
+                try:
+                    acc = it.apply(ClassRef(repo.cls(item.ctor)), [st] + list(item.args), {})
+                    it.steps = 0
+                    if path == "value =":
+                        it.setattr(acc, "value", label)
+                    else:
+                        it.call(repo.method(item.ctor, "async_set_value"), acc, [label])
+                    res[path] = list(writes)
+                except PyRaise as e:
+                    res[path] = f"raises {e.what}"
+                except Undecided as e:
+                    raise AnalysisError(f"{stem}::{item.key}: writing the label {label!r}: {e}")
+            n += 1
+            want_idx = labs.index(label)
+            ok = isinstance(res["value ="], list) and res["value ="] == res["async_set_value"] and len(res["value ="]) == 1
+            if ok:
+                w = res["value ="][0]
+                word = w[-1]
+                shift = g.get("bitpos") or 0
+                mask = g.get("bitmask") or ((1 << (8 * g["length"])) - 1)
+                ok = tuple(w[:2]) == (g["pos"], g["length"]) and isinstance(word, int) and (word >> shift) & mask == want_idx
+            ctx.ob(rule, f"{stem}::{item.key}::label-{labs.index(label)}::both-paths-write-it", ok,
+                   f"{stem}::{item.key} (labels {labs}): writing the label {label!r} gives {res} - expected one write of index {want_idx} into the field at ({g['pos']}, {g['length']}) from BOTH paths: "
+                   f"a setter that tidies its text input turns a label that is white space into one the item does not have", repo.method(item.ctor, "_set_value").loc,
+                   sample={"rule": rule, "item": f"{stem}::{item.key}", "label": label})
+    ctx.count(f"{rule}:labels a text clean-up would alter", n)
+    ctx.floor(rule, "labels a text clean-up would alter, written through both paths", n, 1)
+
+
 def set_value_encoding(ctx, repo, rule, interp=None):
     """the SPACK set-value builder, interpreted on a symbolic value: a 1-byte value is the last byte, a 2-byte value the
     last two bytes big-endian - for EVERY value (a width taken from the value, not from the declared length, writes a
@@ -488,6 +548,8 @@ def check(ctx):
     ctx.rule("R11", "temperature items read back what was written: for every 16-bit word, both units and both writers, writing the value the item presents for that word hands the same word to the device write (C14's exhaustive float read-back on the reader's / writers' own float programs, borrowed)")
     from .c14 import exact_read_back
     exact_read_back(ctx.borrowed("R11", "C14"), repo, "R6")
+    ctx.rule("R17", "every label is a value, also the odd ones: for every shipped writable Enum item with a label that is, begins or ends with white space (inXM log 2 labels quiet-pause off as \" \"), built by its constructor, writing that label through the public setter and through async_set_value gives the same single write of the label's index - a setter that strips its text input raises ValueError on the blocking path while the awaitable path still writes")
+    odd_labels_writable(ctx, repo, T, "R17")
     ctx.rule("R16", "a temperature write depends on ANOTHER item - the units item - and the tables label that item in two ways (a whole byte labelled F, C on most platforms; two bits labelled C, F on inXM): unit item and temperature item built by their constructors on real bytes, for every shipped shape of the units item x both units x nine words across the range, both writers hand the device the word that reads back as the value written - a writer that tells Celsius by the raw index instead of the label converts with the other unit's formula on the eight inXM tables (C14.R8 borrowed)")
     from .c14 import temperature_on_real_bytes as _torb2
     _torb2(ctx.borrowed("R16", "C14", key_contains="::writes-back::"), repo, "R8")
